@@ -57,6 +57,7 @@ type Frame struct {
 	protos    []*protoInst
 	atomicOrd map[*ssa.CallCommon]int
 	curInstr  ssa.Instruction
+	private   []privAlloc
 }
 
 type loopInfo struct {
@@ -566,6 +567,29 @@ func (fr *Frame) backEdge(from, header *ssa.BasicBlock, e string, h Heap) {
 }
 
 func (fr *Frame) havocAll(h Heap) Heap {
+	nh := fr.havocAllRaw(h)
+	// non-escaping locals (go/ssa: Alloc with Heap == false) cannot be reached by any callee:
+	// their cells keep their contents
+	for _, pa := range fr.private {
+		a := &Addr{Base: pa.ref, T: pa.t}
+		if at, ok := pa.t.Underlying().(*types.Array); ok {
+			name, srt := fr.g.elemArrName(at.Elem())
+			old := fr.g.heapArr(h, name, srt)
+			cur := fr.g.heapArr(nh, name, srt)
+			nh[name] = fr.g.define(name, srt, fmt.Sprintf("(store %s %s (select %s %s))", cur, pa.ref, old, pa.ref))
+			continue
+		}
+		nh = fr.g.store(nh, a, fr.g.load(h, a))
+	}
+	return nh
+}
+
+type privAlloc struct {
+	ref string
+	t   types.Type
+}
+
+func (fr *Frame) havocAllRaw(h Heap) Heap {
 	g := fr.g
 	nh := Heap{}
 	// allocation counter only grows
